@@ -127,4 +127,16 @@ PROPS = {
              expect_probes=["fill-differential", "valgrind-run"],
              phases=[{"tag": "fill", "bin": "simcheck", "wrap": [], "share": 0.5, "shrink": 400},
                      {"tag": "vg", "bin": "simcheck-vg", "wrap": ["valgrind", "-q", "--error-exitcode=0", "--undef-value-errors=yes", "--num-callers=12"], "share": 0.5, "shrink": 60}]),
+    "C19": P("exploration", 40, 600,
+             "each run = 2-4 real threads, each driving its own Encoder / Decoder / Status / builders (and the static TECMP decoder) on a workload cut from the C01 C04 C05 C06 C10 C13 C15 C16 C17 C18 "
+             "generators (a third of the runs: the same workload on all threads); library compiled -O0 with -fsanitize-coverage=trace-pc-guard,trace-loads,trace-stores, memcpy/memmove/memset and "
+             "__cxa_guard_* wrapped; a baton lets exactly one thread run, every callback is a yield point, the seeded scheduler switches with geometric run lengths (mean 1..10^4 yield points) or at "
+             "1-6 uniformly placed change points; oracles: per-thread output digest == digest of the same workload run alone, and a vector-clock happens-before detector over all recorded accesses "
+             "(8-byte granules, heap ranges forgotten on release, static-init guards as edges); distinct = plan hash (workloads + scheduler seed); non-trivial = a thread was preempted inside library code; "
+             "interleavings = hash of the switch sequence (yield index, next thread)",
+             assumptions=["accesses inside uninstrumented libstdc++ / libc are invisible to the detector", "the scheduler draws its switch decisions from a PRNG seeded by the plan (schedseed) while the run "
+                          "proceeds; replay is exact because the yield-point sequence is a function of plan and code"],
+             variant="sched", sanitizers="none (own scheduler + happens-before detector; TSan sees nothing under a serialising scheduler)",
+             expect_probes=["scheduled-run", "preempted-inside-library", "ten-or-more-switches"],
+             phases=[{"tag": "sched", "bin": "simcheck", "wrap": [], "share": 1.0, "shrink": 60}]),
 }
